@@ -42,7 +42,14 @@ impl<V: Val, S: StratExt<V>> St<V, S> {
     /// A value to put somewhere: a clone of a pool entry, a fresh one, or the empty value.
     fn some_value(&mut self, rng: &mut Rng) -> V {
         match rng.below(8) {
-            0 => V::none(),
+            0 => {
+                let v = V::none();
+                if v.vid() != 0 {
+                    // a pointer kind without an empty value hands out an ordinary value here
+                    self.addr.insert(v.vid(), v.addr());
+                }
+                v
+            }
             1..=4 => {
                 let i = rng.below(POOL as u64) as usize;
                 if self.pool[i].is_none() {
@@ -149,6 +156,7 @@ pub struct ProgOut {
 /// results (identical for all strategies if they all agree with the model).
 pub fn run_program<V: Val, S: StratExt<V>>(seed: u64, len: usize, ledger: bool) -> ProgOut {
     let mut rng = Rng::new(seed);
+    V::program_start();
     let mut st: St<V, S> = St {
         conts: Vec::new(),
         model: Vec::new(),
